@@ -761,16 +761,18 @@ def _name_root(facts, fn, defs, o, cache, depth=0):
 
 NAME_SINKS = (('::Dir::encode_lfn_utf16', 0, 'is stored in the long-name slots'),
               ('::ShortNameGenerator::new', 0, 'is turned into the 8.3 alias'),
-              ('::Dir::find_entry', 1, 'is looked up for existence'))
+              ('::Dir::find_entry', 1, 'is looked up for existence'),
+              ('::DirEntry::eq_name', 1, 'is compared with the stored names'))
 CHECK_EXIST = 'fatfs::dir::Dir::check_for_existence'
 WRITE_ENTRY = 'fatfs::dir::Dir::write_entry'
+FIND_ENTRY = 'fatfs::dir::Dir::find_entry'
 
 
 def one_name(ctx, rep):
     facts = ctx.facts
     cache = {}
     n = 0
-    for fname in (CHECK_EXIST, WRITE_ENTRY):
+    for fname in (CHECK_EXIST, WRITE_ENTRY, FIND_ENTRY):
         fn = facts.fns.get(fname)
         if fn is None:
             continue
